@@ -74,13 +74,15 @@ T(l, v)    == [k |-> "tag", l |-> l, key |-> "",  v |-> v]
 U(key, sh) == [k |-> "unk", l |-> 0, key |-> key, v |-> <<sh>>]
 
 (* integer shapes: representable / outside the representable range / outside the property's domain *)
-TimeIn   == {"0", "1", "1700000000", "2^32", "u64max"}
+\* ("n:<digits>" = that number: powers of ten and their neighbours, where digit-group arithmetic of integer printers changes)
+TimeIn   == {"0", "1", "1700000000", "2^32", "u64max", "n:9", "n:10", "n:99", "n:100", "n:9999", "n:10000", "n:10001", "n:99999999",
+             "n:100000000", "n:100000001", "n:1000000000000", "n:10000000000000000", "n:9999999999999999999", "n:10000000000000000000"}
 TimeOor  == {"2^64", "-1"}
 TimeMay  == {"1.0", "1e3"}
-LimitIn  == {"0", "1", "10", "u32max"}
+LimitIn  == {"0", "1", "10", "u32max", "n:100", "n:9999", "n:10000", "n:10001", "n:100000000", "n:1000000000"}
 LimitOor == {"2^32", "2^32+1", "u64max", "2^64", "-1"}
 LimitMay == {"1.0", "1e3"}
-KindIn   == {"0", "1", "30023", "65535"}
+KindIn   == {"0", "1", "30023", "65535", "n:10", "n:100", "n:1000", "n:9999", "n:10000", "n:10001"}
 KindOor  == {"65536", "2^64", "-1"}
 KindMay  == {"1.0", "1e0"}
 SatTime(s)  == IF s = "2^64" THEN "u64max" ELSE IF s = "-1" THEN "0" ELSE s
